@@ -151,6 +151,18 @@ fn model_of(frames: &[Frame], thread: &str) -> Option<Model> {
     Some(m)
 }
 
+/// For other monitors (C02): `Some(true)` iff, by the raw log alone, an auto / schedule compaction with these
+/// parameters has nothing to plan (every eligible cut point of the latest 32 already has a checkpoint frame).
+pub(crate) fn nothing_to_compact(log: &[u8], thread: &str, stride: Option<u64>, max_new: Option<u32>) -> Option<bool> {
+    let frames = truth::parse_log(log).ok()?;
+    let m = model_of(&frames, thread)?;
+    let stride = stride.unwrap_or(10_000);
+    if stride == 0 {
+        return None;
+    }
+    Some(m.plan(stride, clamp_u32(max_new)).is_empty())
+}
+
 impl Model {
     fn count(&self) -> u64 {
         self.msgs.len() as u64
